@@ -51,6 +51,8 @@ NEEDS = {
  "C09-4": "an outside vertex that directly follows an inside vertex within about 1e-6 relative distance (InsertPolygon skips 'repeated' vertices with a tolerant comparison)",
  "C03-4": "EuropeanETRS89_LAEAQuad ids 11, 14, 15 and many UPS ids (level derived from the float ratio of cell sizes, truncated: one level too shallow)",
  "C15-4": "a lat/lon-ordered set and a second call on the same tile matrix (helper swaps the shared PointOfOrigin array in place through the pointer)",
+ "C06-7": "a polygon with two or more inner rings, one outside every outer ring and a later one with a vertex in or on it (match counter sized once, polygons grown inside the loop: index out of range in matchInnersToPolygons)",
+ "C06-8": "two rings of the same kind that snap to the same vertices but start at different corners (ringsAreEqual: hand-wrapped index with j > ringLen instead of >=)",
  "C06-1": "a ring starting with a zig-zag whose forward matches outnumber the reverse ones by two or more (removal range computed from the wrong count: slice bounds out of range)",
  "C06-2": "a zig-zag directly followed by another step back (scan resumes on the last removed vertex: overlapping removal ranges)",
  "C06-3": "a zig-zag long enough for a second corpus expansion (corpus grows by 3 segments, its end marker by 2)",
@@ -68,7 +70,7 @@ UNDETECTABLE = {
 }
 claimed = {c["property_id"] for c in json.load(open("/verif/MANIFEST.json"))["checks"]}
 only = sys.argv[1:]
-WT = "/tmp/wt-seedmeta"
+WT = "/tmp/wt-seedmeta-%d" % os.getpid()
 subprocess.run(f"git -C /repo worktree remove --force {WT}", shell=True, capture_output=True)
 r = subprocess.run(f"git -C /repo worktree add -q --detach {WT} HEAD", shell=True, capture_output=True, text=True)
 if r.returncode != 0:
@@ -91,10 +93,10 @@ for name in sorted(os.listdir("/verif/seeded")):
             meta["undetectable_because"] = UNDETECTABLE.get(name, "the patch no longer applies to the current tree")
         else:
             cmd = f"./bin/gvc check -p {prop} -no-evidence -q"
-            out = subprocess.run(cmd + f" -repo {WT} -replays /tmp/seedmeta-replays", shell=True, cwd="/verif", capture_output=True, text=True)
+            out = subprocess.run(cmd + f" -repo {WT} -replays /tmp/seedmeta-replays-%d" % os.getpid(), shell=True, cwd="/verif", capture_output=True, text=True)
             subprocess.run(f"git -C {WT} checkout -- . && git -C {WT} clean -fdq", shell=True)
             viol = [l for l in out.stdout.split("\n") if l.startswith("VIOLATION")]
-            obls = sorted({re.sub(r".*replays/[A-Z0-9]+-(.*)\.json.*", r"\1", v) for v in viol})
+            obls = sorted({re.sub(r".*replays[^/]*/[A-Z0-9]+-(.*)\.json.*", r"\1", v) for v in viol})
             meta["check_run"] = cmd
             meta["exit_code"] = out.returncode
             meta["detected"] = out.returncode == 1 and bool(viol)
